@@ -8,17 +8,21 @@ PROP = "C06"
 COUNT = {"quick": 1500, "thorough": 10000, "search": 4000}
 PARALLEL = True
 REL = "cryocat/geom.py"
-RULE = ("case families. pair: batches of 1..24 (thorough: ..200; dedicated batches of 48..160) orientation triples (a,b,c) + a common rotation g, rows drawn from "
-        "random / near-identical (1e-9..10 deg apart, log-uniform) / the SAME rotation written as another Euler triple (other quaternion sign, theta outside [0,180], "
-        "gimbal-lock equivalents) / exactly 180 deg apart / z-axes exactly antipodal / gimbal lock theta in {0,180} / the 24 cube rotations (thorough: all 576 ordered "
-        "pairs) / the 45-degree Euler lattice (theta up to 360); given to angular_distance, cone_distance, inplane_distance, cone_inplane_distance and to "
-        "compare_rotations with EVERY rotation_type (all, angular_distance, cone_distance, in_plane_distance, one unsupported string) as ndarray or scipy Rotation "
-        "(single or batch); in ~30 % of the cases every optional keyword is omitted (library defaults), otherwise given explicitly. "
+RULE = ("case families. pair: batches of 1..24 (thorough: ..200; dedicated batches of 48..160 and 161..500) orientation triples (a,b,c) + a common rotation g, rows drawn from "
+        "random / decimal angles with 1-3 decimals / near-identical (1e-9..10 deg apart, log-uniform) / the SAME rotation written as another Euler triple (other quaternion sign, "
+        "theta outside [0,180], gimbal-lock equivalents) / exactly 180 deg apart / z-axes exactly antipodal / gimbal lock theta in {0,180} / the 24 cube rotations (thorough: all 576 "
+        "ordered pairs) / the 45-degree Euler lattice (theta up to 360) / whole-number angles; given to angular_distance, cone_distance, inplane_distance, cone_inplane_distance and to "
+        "compare_rotations with EVERY rotation_type (all, angular_distance, cone_distance, in_plane_distance, one unsupported string) as float64 ndarray, INTEGER-typed ndarray "
+        "(whole-number rows), scipy Rotation (single or batch), or MIXED (ndarray first + Rotation second, and the reverse); in ~30 % of the cases every optional keyword is omitted "
+        "(library defaults), otherwise given explicitly. EVERY run of every tier and the search stream start with the upper end of the quantifier: three 257..500-row pair batches "
+        "(float ndarray, mixed, integer ndarray; sizes 257/300/385/500 and random), a 257..500-row batch through normals_to_euler_angles as ndarray and as DataFrame, and one through "
+        "euler_angles_to_normals. "
         "seq: 2-3 such calls in one process on the SAME caller-owned ndarrays, rewritten in place between the calls (or the same second argument with a new first one); "
         "every step judged like a first call; all caller-owned arrays are compared before/after every library call. mismatch: batches of different size. "
-        "normals: batches of 1..500 Euler triples (theta also outside [0,180]) through euler_angles_to_normals (also a single 1-D triple). n2e: batches of normals of length "
-        "1e-300..1e300 incl. +-x,+-y,+-z, y=0<x, signed zeros, integer directions at extreme lengths, zero vectors among valid rows, through normals_to_euler_angles "
-        "(ndarray or DataFrame; output_order zxz, zzx or omitted). "
+        "normals: batches of 1..500 Euler triples (theta also outside [0,180]) through euler_angles_to_normals as ndarray, integer ndarray, nested list, tuple of tuples (also a single 1-D triple). "
+        "n2e: batches of 1..500 normals of length 1e-300..1e300 incl. +-x,+-y,+-z, y=0<x, signed zeros, integer directions at extreme lengths, whole-number normals in an INTEGER-typed "
+        "array / DataFrame with integer columns, zero vectors among valid rows, through normals_to_euler_angles (ndarray or DataFrame with default / gapped / duplicated / reversed / text row labels "
+        "and extra columns; output_order zxz, zzx or omitted). "
         "non-trivial = pair case with >=2 distinct structured row kinds (or >=48 rows); normals case with n>=2; n2e case containing an axis-aligned or "
         "half-plane normal; every seq / mismatch case; distinct = distinct case content")
 ASSUMPTIONS = [
@@ -34,7 +38,8 @@ ASSUMPTIONS = [
     "'in-plane distance vanishes for equal orientations' rests on as_euler being a function of the rotation only: independent of the sign of the quaternion and "
     "of the Euler triple the rotation was built from (probed every run, 1e-9 deg); required of the code with 1e-9 deg (conditioned by 1/sin(theta) near gimbal lock)",
     "the theorems are over ordered fields / the reals; binary64 agrees only while x*x+y*y+z*z of a normal is a normal double: outside (|n| > ~1.3e154 or < ~1.5e-154) "
-    "normals_to_euler_angles really violates 'normals of any length' (known finding C06-K1, theorem n2e_scale_invariant is the clause it breaks)",
+    "normals_to_euler_angles really violates 'normals of any length' (known finding C06-K1; n2e_scale_invariant is the clause it breaks, n2e_k1_overflow_witness / "
+    "n2e_k1_underflow_witness exhibit the loss on the model at Float); a row is attributed to K1 only when it is wrong AND its squared length overflows or is not a normal double",
     "a zero vector has no direction: rows with a zero normal are outside the statement (code and model both give NaN there; the other rows of the batch are judged)",
 ]
 TRUSTED = ["scipy.spatial.transform.Rotation (from_euler/as_quat/as_euler/apply/*/magnitude): modelled, probed each run", "libm (acos, atan2, sqrt, cos, sin)"]
@@ -45,13 +50,15 @@ LEVEL_TEXT = ("Lean 4 theorems about an executable quaternion/matrix model of ge
               "under a common rotation on either side, equals arccos((trace(R1^T R2)-1)/2) and satisfies the triangle inequality; cone distance = arccos of the "
               "dot of the two z-axis images; in-plane distance in [0,180], 0 for equal angles and <= e+2tol for angles e apart; every rotation_type of compare_rotations "
               "returns the primitive of its name, anything else is rejected; row-wise normals: one unit vector per orientation, each from its own row, equal to the "
-              "z-axis image for any batch size; normals_to_euler z-axis = n/|n| and independent of |n|. Tied to the source by normalised whole-body dumps of all nine "
-              "functions (defaults, every statement in order, locals alpha-normalised), regenerated dispatch tables the model executes, and a differential run of the "
-              "real functions against the driver executing the same definitions at Float")
+              "z-axis image for any batch size; normals_to_euler z-axis = n/|n| and independent of |n|. Tied to the source by a structural translation of angular_distance, "
+              "euler_angles_to_normals and normals_to_euler_angles (symbolic execution with temporaries inlined: input dispatch tables, reduction axes / normalisation mode, and the "
+              "row-level formulas as terms of an expression type the model EVALUATES; theorems prove the regenerated terms evaluate to the formulas the metric theorems are about), "
+              "normalised whole-body dumps of the other six functions (defaults, every statement in order, locals alpha-normalised, annotations and message texts ignored), "
+              "regenerated dispatch tables the model executes, and a differential run of the real functions against the driver executing the same definitions at Float")
 LEVEL_NOTE = ("trusted: Lean kernel; scipy Rotation and libm (modelled + probed, not verified); float comparisons use stated tolerances; "
               "translator anchors are normalised statement dumps; spec findings are decided by the Lean checker checkMetric / zaxisOfEuler or by scipy-only evaluations "
               "(relative-rotation magnitude, angle between z-axis images) that use neither the code under test nor the model")
-TECHNIQUE = "Lean 4 proof (ring identities on quaternions, Mathlib real analysis for arccos/triangle inequality) + regenerated whole-body anchors and dispatch tables + differential correspondence at Float"
+TECHNIQUE = "Lean 4 proof (ring identities on quaternions, Mathlib real analysis for arccos/triangle inequality) + structural translation (symbolic execution -> expression terms the model evaluates) + regenerated whole-body anchors and dispatch tables + differential correspondence at Float"
 DESIGN_REF = "DESIGN.md section 4, C06; Appendix A.2"
 
 DEG_NEAR = 0.1        # below this model distance the loose slack applies
@@ -66,9 +73,10 @@ TOL_VEC = 1e-12
 # nested blocks marked by "| ", local variables alpha-normalised (v0, v1, ... by first binding), parameters and their defaults in the header.
 # So an inserted statement, a later re-assignment, an `if c_symmetry > 1` block, the isinstance dispatch, a from_euler call or a changed default
 # all change the dump (and break the `*_documented` theorem), while renaming a local variable does not.
-FUNCS = [("compare_rotations", "bodyCompare"), ("angular_distance", "bodyAngular"), ("cone_distance", "bodyCone"),
-         ("inplane_distance", "bodyInplane"), ("cone_inplane_distance", "bodyConeInplane"), ("euler_angles_to_normals", "bodyNormals"),
-         ("normals_to_euler_angles", "bodyN2e"), ("visualize_angles", "bodyVisAngles"), ("visualize_rotations", "bodyVisRot")]
+FUNCS = [("compare_rotations", "bodyCompare"), ("cone_distance", "bodyCone"),
+         ("inplane_distance", "bodyInplane"), ("cone_inplane_distance", "bodyConeInplane"),
+         ("visualize_angles", "bodyVisAngles"), ("visualize_rotations", "bodyVisRot")]
+# angular_distance, euler_angles_to_normals, normals_to_euler_angles: translated structurally (see "structural translation" below), no dump
 COLLAPSE = ("plot_rotations",)   # the plotting block of visualize_rotations: only "does it rebind a live name / leave the function" is kept
 
 # the DOCUMENTED values (what the theorems of Props/C06.lean state); used as the fall-back of a missing anchor so that a missing anchor
@@ -80,7 +88,24 @@ DOC = {
     "compareBranches": [("all", ["ang", "cone", "inp"]), ("angular_distance", ["ang"]), ("cone_distance", ["cone"]), ("in_plane_distance", ["inp"])],
     "compareElse": "raise UserInputError",
     "n2eOrders": [("zzx", ["phi", "psi", "theta"]), ("*", ["phi", "theta", "psi"])],
+    "angExpr": '(E.deg (E.mul (E.lit 2 1) (E.acos (E.min (E.abs (E.var "dot")) (E.lit 1 1)))))',
+    "dist2Expr": '(E.iteLt (E.sub (E.lit 1 1) (E.mul (E.var "dot") (E.var "dot"))) (E.lit 1 10000000) (E.lit 0 1) (E.sub (E.lit 1 1) (E.mul (E.var "dot") (E.var "dot"))))',
+    "angInputs": [[("np.ndarray", "srot.from_euler(convention, <arg>, degrees=degrees)"), ("*", "<arg>")]] * 2,
+    "normMode": "row",
+    "n2eInputs": [("pd.DataFrame", "<arg>.loc[:, ['x', 'y', 'z']].values"), ("np.ndarray", "<arg>"), ("*", "raise UserInputError")],
+    "thetaExpr": '(E.deg (E.atan2 (E.sqrt (E.add (E.mul (E.var "ux") (E.var "ux")) (E.mul (E.var "uy") (E.var "uy")))) (E.var "uz")))',
+    "psiExpr": '(E.iteEq (E.var "ux") (E.lit 0 1) (E.iteEq (E.var "uy") (E.lit 0 1) (E.lit 0 1) (E.add (E.lit 90 1) (E.deg (E.atan2 (E.var "uy") (E.var "ux"))))) '
+               '(E.add (E.lit 90 1) (E.deg (E.atan2 (E.var "uy") (E.var "ux")))))',
 }
+# the fixed part of Gen/C06.lean: the expression type the regenerated row-level formulas are terms of (Model/C06.lean: evalE)
+E_TEMPLATE = """/-- row-level arithmetic of the translated functions (fixed template; only the VALUES below are regenerated) -/
+inductive E where
+  | lit (num den : Nat) | var (name : String) | pi
+  | neg (a : E) | add (a b : E) | sub (a b : E) | mul (a b : E) | div (a b : E)
+  | abs (a : E) | min (a b : E) | max (a b : E)
+  | acos (a : E) | sqrt (a : E) | atan2 (y x : E) | deg (a : E)
+  | iteLt (a b t e : E) | iteEq (a b t e : E)
+deriving Repr, DecidableEq, Inhabited"""
 
 
 def _params(fn):
@@ -89,34 +114,119 @@ def _params(fn):
 
 
 def _alpha_map(fn):
+    """H2: canonical names of the locals, numbered by BINDING OCCURRENCE (first position in the source where the name is bound: assignment
+    target, loop/comprehension variable, `with … as`, `except … as`, parameter of a nested lambda/def). A local that is bound but never read
+    (a discard: `_`, `unused`, …) is written `_` whatever it is called and takes no number, so `a, _ = f(); b, _ = g()` and
+    `a, u1 = f(); b, u2 = g()` have the same dump, and renaming any local is invisible."""
     params = _params(fn)
-    stores = [n for n in ast.walk(fn) if isinstance(n, ast.Name) and isinstance(n.ctx, (ast.Store, ast.Del)) and n.id not in params]
-    stores.sort(key=lambda n: (n.lineno, n.col_offset))
+    own_args = {id(x) for x in fn.args.posonlyargs + fn.args.args + fn.args.kwonlyargs + [y for y in (fn.args.vararg, fn.args.kwarg) if y]}
+    binds = []
+    for n in ast.walk(fn):
+        if isinstance(n, ast.Name) and isinstance(n.ctx, (ast.Store, ast.Del)) and n.id not in params:
+            binds.append((n.lineno, n.col_offset, n.id))
+        elif isinstance(n, ast.arg) and id(n) not in own_args and n.arg not in params:
+            binds.append((n.lineno, n.col_offset, n.arg))
+        elif isinstance(n, ast.ExceptHandler) and n.name and n.name not in params:
+            binds.append((n.lineno, n.col_offset, n.name))
+    binds.sort()
+    loaded = {n.id for n in ast.walk(fn) if isinstance(n, ast.Name) and isinstance(n.ctx, ast.Load)}
     m = {}
-    for n in stores:
-        if n.id not in m:
-            m[n.id] = f"v{len(m)}"
+    k = 0
+    for _l, _c, name in binds:
+        if name in m:
+            continue
+        if name not in loaded:
+            m[name] = "_"
+        else:
+            m[name] = f"v{k}"
+            k += 1
     return m
 
 
+_LOG_CALLS = ("print", "warn", "warning", "info", "debug", "error", "exception", "critical", "log")
+
+
+def _is_text(n):
+    return isinstance(n, ast.JoinedStr) or (isinstance(n, ast.Constant) and isinstance(n.value, str))
+
+
 class _Ren(ast.NodeTransformer):
+    """renames the locals and applies H1: type annotations are dropped (`x: T = v` becomes `x = v`, a bare `x: T` disappears), and the TEXT of
+    exception / print / log messages is replaced by `<msg>` (the exception type and the fact that something is printed stay)"""
+
     def __init__(self, m):
         self.m = m
 
     def visit_Name(self, n):
         return ast.copy_location(ast.Name(id=self.m.get(n.id, n.id), ctx=n.ctx), n)
 
+    def visit_arg(self, n):
+        return ast.copy_location(ast.arg(arg=self.m.get(n.arg, n.arg), annotation=None), n)
+
+    def visit_ExceptHandler(self, n):
+        self.generic_visit(n)
+        if n.name:
+            n.name = self.m.get(n.name, n.name)
+        return n
+
+    def visit_FunctionDef(self, n):
+        self.generic_visit(n)
+        n.returns = None
+        if n.body and isinstance(n.body[0], ast.Expr) and _is_text(n.body[0].value) and len(n.body) > 1:
+            n.body = n.body[1:]
+        return n
+
+    def visit_AnnAssign(self, n):
+        self.generic_visit(n)
+        if n.value is None:
+            return None
+        return ast.copy_location(ast.Assign(targets=[n.target], value=n.value), n)
+
+    def _strip_text(self, call):
+        call.args = [ast.Name(id="<msg>", ctx=ast.Load()) if _is_text(a) else a for a in call.args]
+        for kw in call.keywords:
+            if _is_text(kw.value):
+                kw.value = ast.Name(id="<msg>", ctx=ast.Load())
+
+    def visit_Raise(self, n):
+        self.generic_visit(n)
+        if isinstance(n.exc, ast.Call):
+            self._strip_text(n.exc)
+        return n
+
+    def visit_Expr(self, n):
+        self.generic_visit(n)
+        v = n.value
+        if isinstance(v, ast.Call):
+            f = v.func
+            nm = f.id if isinstance(f, ast.Name) else (f.attr if isinstance(f, ast.Attribute) else "")
+            if nm in _LOG_CALLS:
+                self._strip_text(v)
+        return n
+
 
 def _u(node, m):
     import copy
-    return ast.unparse(_Ren(m).visit(copy.deepcopy(node)))
+    r = _Ren(m).visit(copy.deepcopy(node))
+    return "pass" if r is None else ast.unparse(ast.fix_missing_locations(r))
+
+
+def _header(fn):
+    """`def name(parameters with their defaults)` WITHOUT annotations (H1: a type hint is a harmless edit)"""
+    import copy
+    a = copy.deepcopy(fn.args)
+    for x in a.posonlyargs + a.args + a.kwonlyargs + [y for y in (a.vararg, a.kwarg) if y]:
+        x.annotation = None
+    return f"def {fn.name}({ast.unparse(a)})"
 
 
 def _dump_block(stmts, m, depth, fn, out, elif_=False):
     pre = "| " * depth
     for st in stmts:
-        if isinstance(st, ast.Expr) and isinstance(st.value, ast.Constant) and isinstance(st.value.value, str):
-            continue  # docstring
+        if isinstance(st, ast.Expr) and _is_text(st.value):
+            continue  # docstring / bare string
+        if isinstance(st, ast.AnnAssign) and st.value is None:
+            continue  # bare annotation `x: T`
         if isinstance(st, ast.If):
             test = _u(st.test, m)
             kw = "elif" if elif_ else "if"
@@ -142,11 +252,491 @@ def _dump_block(stmts, m, depth, fn, out, elif_=False):
 
 
 def dump_fn(fn):
-    """normalised dump of a whole function: header with the parameter defaults, then one string per statement"""
+    """normalised dump of a whole function: header with the parameter defaults (no annotations), then one string per statement"""
     m = _alpha_map(fn)
-    out = [f"def {fn.name}({ast.unparse(fn.args)})"]
+    out = [_header(fn)]
     _dump_block(fn.body, m, 0, fn, out)
     return out
+
+
+# ------------------------------------------------------------------ structural translation (extension goal)
+# angular_distance, euler_angles_to_normals and normals_to_euler_angles are not tied by a statement dump but TRANSLATED: the body is
+# executed symbolically (temporaries inlined), the result is taken apart top-down -- input dispatch table, batch handling (which axis
+# np.sum / np.linalg.norm reduce over), row-level arithmetic as a term of the Lean type Gen.C06.E that the model EVALUATES -- and only the
+# glue between those pieces (shape guard, as_quat/ndmin, the c_symmetry block, the random phi) is kept as short skeleton strings.
+# So a harmless refactor (new / renamed / removed temporaries, reordered independent statements, x**2 vs np.power(x, 2) vs x*x,
+# axis=1 vs positional 1, abs vs np.abs) regenerates an EQUAL model; anything the translation cannot express raises AnchorMissing.
+import copy
+_copy = copy
+
+_VIEWS = {"asarray", "asanyarray", "ravel", "reshape", "view", "squeeze", "transpose", "atleast_1d", "atleast_2d", "atleast_3d", "swapaxes",
+          "diagonal", "values", "to_numpy", "T", "real", "imag", "flat", "loc", "iloc", "expand_dims", "broadcast_to"}
+
+
+def _callname(f):
+    return f.id if isinstance(f, ast.Name) else (f.attr if isinstance(f, ast.Attribute) else "")
+
+
+def _fresh(v):
+    """does this expression denote a NEW array (so that writing into it cannot be seen through another name)?"""
+    if isinstance(v, (ast.BinOp, ast.UnaryOp, ast.Compare, ast.BoolOp, ast.Constant)):
+        return True
+    if isinstance(v, ast.IfExp):
+        return _fresh(v.body) and _fresh(v.orelse)
+    if isinstance(v, ast.Call):
+        nm = _callname(v.func)
+        if nm in ("setitem",):
+            return True
+        if nm in _VIEWS:
+            return False
+        if nm == "array" and any(k.arg == "copy" for k in v.keywords):
+            return False
+        return True
+    return False
+
+
+class SymExec:
+    """H-ext: symbolic execution of a straight-line / if-else function body into ONE expression per outcome. Locals are inlined (so temporaries,
+    their names, and the order of independent statements do not matter), `x[i] = v` / `x += v` on a fresh array become functional updates,
+    an `if` without return/raise is merged variable by variable (`a if c else b`), an `if` with an exit splits the outcome. Anything the
+    translation cannot express faithfully (loops, with/try, writes through a possible alias or view) raises AnchorMissing quoting the statement."""
+
+    def __init__(self, fn):
+        self.fn = fn
+        a = fn.args
+        self.params = [x.arg for x in a.posonlyargs + a.args + a.kwonlyargs] + ([a.vararg.arg] if a.vararg else []) + ([a.kwarg.arg] if a.kwarg else [])
+
+    def miss(self, st, why):
+        raise core.AnchorMissing(f"{self.fn.name}: {why}: `{ast.unparse(st).splitlines()[0][:100]}` (line {getattr(st, 'lineno', '?')})")
+
+    def sub(self, node, env):
+        outer = self
+
+        class S(ast.NodeTransformer):
+            def visit_Name(self, n):
+                if isinstance(n.ctx, ast.Load) and n.id in env and n.id != "$eff":
+                    return copy.deepcopy(env[n.id])
+                return n
+
+            def visit_Lambda(self, n):
+                outer.miss(n, "lambda inside an anchored body is not translated")
+
+            def visit_ListComp(self, n):
+                outer.miss(n, "comprehension inside an anchored body is not translated")
+            visit_SetComp = visit_DictComp = visit_GeneratorExp = visit_ListComp
+        return S().visit(copy.deepcopy(node))
+
+    def run(self):
+        env = {p: ast.Name(id=p, ctx=ast.Load()) for p in self.params}
+        env["$eff"] = []
+        return self.block(list(self.fn.body), env, [])
+
+    @staticmethod
+    def _exits(stmts):
+        return any(isinstance(n, (ast.Return, ast.Raise)) for s in stmts for n in ast.walk(s))
+
+    def outcome(self, env, value):
+        if env["$eff"]:
+            return ast.Call(func=ast.Name(id="seq", ctx=ast.Load()), args=list(env["$eff"]) + [value], keywords=[])
+        return value
+
+    def update(self, st, env, name, idx, newval):
+        v = env.get(name)
+        if v is None:
+            self.miss(st, f"in-place write into `{name}` which is not a local or parameter")
+        tag = "setitem" if _fresh(v) else "inplace_through_alias"
+        for other, ov in env.items():
+            if other in (name, "$eff") or ov is v:
+                continue
+            if isinstance(ov, (ast.Subscript, ast.Attribute)) or (isinstance(ov, ast.Call) and _callname(ov.func) in _VIEWS):
+                if ast.dump(v) in ast.dump(ov):
+                    self.miss(st, f"in-place write into `{name}` while `{other}` may be a view of it")
+        new = ast.Call(func=ast.Name(id=tag, ctx=ast.Load()), args=[v, idx, newval], keywords=[])
+        for other in list(env):
+            if other != "$eff" and env[other] is v:
+                env[other] = new
+
+    def block(self, stmts, env, cont):
+        for i, st in enumerate(stmts):
+            rest = stmts[i + 1:]
+            if isinstance(st, ast.Expr):
+                if _is_text(st.value):
+                    continue
+                v = self.sub(st.value, env)
+                if isinstance(v, ast.Call) and _callname(v.func) in _LOG_CALLS:
+                    v.args = [ast.Name(id="<msg>", ctx=ast.Load()) if _is_text(a) else a for a in v.args]
+                env["$eff"] = env["$eff"] + [v]
+            elif isinstance(st, (ast.Assign, ast.AnnAssign)):
+                if isinstance(st, ast.AnnAssign):
+                    if st.value is None:
+                        continue
+                    targets = [st.target]
+                else:
+                    targets = st.targets
+                if isinstance(st.value, ast.Name) and st.value.id in env:
+                    val = env[st.value.id]          # plain alias: the SAME object
+                else:
+                    val = self.sub(st.value, env)
+                for t in targets:
+                    if isinstance(t, ast.Name):
+                        env[t.id] = val
+                    elif isinstance(t, (ast.Tuple, ast.List)) and all(isinstance(e, ast.Name) for e in t.elts):
+                        for k, e in enumerate(t.elts):
+                            if isinstance(val, (ast.Tuple, ast.List)) and len(val.elts) == len(t.elts):     # a, b = x, y
+                                env[e.id] = val.elts[k]
+                            else:
+                                env[e.id] = ast.Subscript(value=copy.deepcopy(val), slice=ast.Constant(value=k), ctx=ast.Load())
+                    elif isinstance(t, ast.Subscript) and isinstance(t.value, ast.Name):
+                        self.update(st, env, t.value.id, self.sub(t.slice, env), val)
+                    else:
+                        self.miss(st, "assignment target not handled by the symbolic translation")
+            elif isinstance(st, ast.AugAssign):
+                rhs = self.sub(st.value, env)
+                if isinstance(st.target, ast.Name):
+                    name = st.target.id
+                    if name not in env:
+                        self.miss(st, "augmented assignment to an unbound name")
+                    v = env[name]
+                    new = ast.BinOp(left=v, op=st.op, right=rhs)
+                    if _fresh(v):       # numpy's `x += c` writes into x; on a fresh array that is the same as rebinding
+                        for other in list(env):
+                            if other != "$eff" and env[other] is v:
+                                env[other] = new
+                    else:
+                        env[name] = ast.Call(func=ast.Name(id="inplace_through_alias", ctx=ast.Load()), args=[v, ast.Constant(value=Ellipsis), new], keywords=[])
+                elif isinstance(st.target, ast.Subscript) and isinstance(st.target.value, ast.Name):
+                    name = st.target.value.id
+                    idx = self.sub(st.target.slice, env)
+                    cur = ast.Subscript(value=copy.deepcopy(env.get(name) or ast.Name(id=name, ctx=ast.Load())), slice=copy.deepcopy(idx), ctx=ast.Load())
+                    self.update(st, env, name, idx, ast.BinOp(left=cur, op=st.op, right=rhs))
+                else:
+                    self.miss(st, "augmented assignment target not handled")
+            elif isinstance(st, ast.Return):
+                val = self.sub(st.value, env) if st.value is not None else ast.Constant(value=None)
+                return self.outcome(env, val)
+            elif isinstance(st, ast.Raise):
+                exc = st.exc
+                nm = ast.unparse(exc.func) if isinstance(exc, ast.Call) else (ast.unparse(exc) if exc is not None else "reraise")
+                return self.outcome(env, ast.Call(func=ast.Name(id="RAISE", ctx=ast.Load()), args=[ast.Name(id=nm, ctx=ast.Load())], keywords=[]))
+            elif isinstance(st, ast.If):
+                cond = self.sub(st.test, env)
+                if self._exits(st.body) or self._exits(st.orelse):
+                    ea, eb = dict(env), dict(env)
+                    oa = self.block(list(st.body), ea, rest + cont)
+                    ob = self.block(list(st.orelse), eb, rest + cont)
+                    return ast.IfExp(test=cond, body=oa, orelse=ob)
+                ea, eb = dict(env), dict(env)
+                self.block(list(st.body), ea, None)
+                self.block(list(st.orelse), eb, None)
+                for k in sorted(set(ea) | set(eb)):
+                    if k == "$eff":
+                        continue
+                    va, vb = ea.get(k), eb.get(k)
+                    if va is None or vb is None:
+                        # bound in one branch only: usable later only under the same condition; keep a marked value
+                        one = va if va is not None else vb
+                        env[k] = ast.IfExp(test=cond, body=va or ast.Name(id="UNBOUND", ctx=ast.Load()), orelse=vb or ast.Name(id="UNBOUND", ctx=ast.Load()))
+                    elif va is vb or ast.dump(va) == ast.dump(vb):
+                        env[k] = va if va is env.get(k) else va
+                    else:
+                        env[k] = ast.IfExp(test=cond, body=va, orelse=vb)
+                fa, fb = ea["$eff"], eb["$eff"]
+                if [ast.dump(x) for x in fa] != [ast.dump(x) for x in fb]:
+                    base = len(env["$eff"])
+                    seq = lambda xs: ast.Call(func=ast.Name(id="seq", ctx=ast.Load()), args=xs, keywords=[])
+                    env["$eff"] = env["$eff"] + [ast.IfExp(test=cond, body=seq(fa[base:]), orelse=seq(fb[base:]))]
+            elif isinstance(st, ast.Pass):
+                continue
+            else:
+                self.miss(st, f"{type(st).__name__} statement is not handled by the symbolic translation")
+        if cont is None:
+            return None
+        if cont:
+            return self.block(cont, env, [])
+        return self.outcome(env, ast.Constant(value=None))
+
+
+def normal_form(fn):
+    return ast.fix_missing_locations(SymExec(fn).run())
+
+
+
+def _eqn(a, b):
+    return ast.dump(a) == ast.dump(b)
+
+
+def _replace(node, target, name):
+    """copy of `node` with every subtree equal to `target` replaced by the placeholder `name`"""
+    td = ast.dump(target)
+
+    class Rp(ast.NodeTransformer):
+        def visit(self, n):
+            if isinstance(n, ast.AST) and ast.dump(n) == td:
+                return ast.Name(id=name, ctx=ast.Load())
+            return self.generic_visit(n)
+    return Rp().visit(_copy.deepcopy(node))
+
+
+def _need(ok, fname, what, node=None):
+    if not ok:
+        raise core.AnchorMissing(f"{fname}: expected {what}" + (f", found `{ast.unparse(node)[:120]}`" if node is not None else ""))
+
+
+def _npname(f):
+    """'degrees' for np.degrees / numpy.degrees / math.degrees, 'abs' for the builtin, 'linalg.norm' for np.linalg.norm"""
+    if isinstance(f, ast.Name):
+        return f.id
+    if isinstance(f, ast.Attribute):
+        if isinstance(f.value, ast.Name) and f.value.id in ("np", "numpy", "math"):
+            return f.attr
+        if isinstance(f.value, ast.Attribute) and isinstance(f.value.value, ast.Name) and f.value.value.id in ("np", "numpy"):
+            return f.value.attr + "." + f.attr
+    return None
+
+
+def _kw(call, name, pos=None):
+    for k in call.keywords:
+        if k.arg == name:
+            return k.value
+    if pos is not None and len(call.args) > pos:
+        return call.args[pos]
+    return None
+
+
+def _const(n):
+    if isinstance(n, ast.Constant) and isinstance(n.value, (int, float)) and not isinstance(n.value, bool):
+        return n.value
+    if isinstance(n, ast.UnaryOp) and isinstance(n.op, ast.USub) and _const(n.operand) is not None:
+        return -_const(n.operand)
+    return None
+
+
+class ETrans:
+    """python expression (after inlining) -> Lean term of Gen.C06.E; `varmatch(node)` names the row-level variables"""
+
+    def __init__(self, fname, varmatch):
+        self.fname, self.varmatch = fname, varmatch
+
+    def lit(self, v):
+        from fractions import Fraction
+        fr = Fraction(repr(v)) if isinstance(v, float) else Fraction(v)
+        t = f"(E.lit {abs(fr.numerator)} {fr.denominator})"
+        return f"(E.neg {t})" if fr < 0 else t
+
+    def cond(self, c, t, e):
+        """if c then t else e, where c is an elementwise numpy condition"""
+        if isinstance(c, ast.Call) and _npname(c.func) == "where" and len(c.args) == 1:
+            c = c.args[0]
+        if isinstance(c, ast.BinOp) and isinstance(c.op, ast.BitAnd):
+            return self.cond(c.left, self.cond(c.right, t, e), e)
+        if isinstance(c, ast.BinOp) and isinstance(c.op, ast.BitOr):
+            return self.cond(c.left, t, self.cond(c.right, t, e))
+        if isinstance(c, ast.UnaryOp) and isinstance(c.op, ast.Invert):
+            return self.cond(c.operand, e, t)
+        if isinstance(c, ast.Compare) and len(c.ops) == 1:
+            a, b, op = self.e(c.left), self.e(c.comparators[0]), c.ops[0]
+            if isinstance(op, ast.Lt):
+                return f"(E.iteLt {a} {b} {t} {e})"
+            if isinstance(op, ast.Gt):
+                return f"(E.iteLt {b} {a} {t} {e})"
+            if isinstance(op, ast.GtE):
+                return f"(E.iteLt {a} {b} {e} {t})"
+            if isinstance(op, ast.LtE):
+                return f"(E.iteLt {b} {a} {e} {t})"
+            if isinstance(op, ast.Eq):
+                return f"(E.iteEq {a} {b} {t} {e})"
+            if isinstance(op, ast.NotEq):
+                return f"(E.iteEq {a} {b} {e} {t})"
+        _need(False, self.fname, "an elementwise condition (<, >, <=, >=, ==, !=, &, |, ~)", c)
+
+    def e(self, n):
+        v = self.varmatch(n)
+        if v is not None:
+            return f'(E.var "{v}")'
+        c = _const(n)
+        if c is not None:
+            return self.lit(c)
+        if isinstance(n, ast.Attribute) and isinstance(n.value, ast.Name) and n.value.id in ("np", "numpy", "math") and n.attr == "pi":
+            return "E.pi"
+        if isinstance(n, ast.UnaryOp) and isinstance(n.op, ast.USub):
+            return f"(E.neg {self.e(n.operand)})"
+        if isinstance(n, ast.UnaryOp) and isinstance(n.op, ast.UAdd):
+            return self.e(n.operand)
+        if isinstance(n, ast.BinOp):
+            if isinstance(n.op, ast.Pow) and _const(n.right) == 2:
+                x = self.e(n.left)
+                return f"(E.mul {x} {x})"
+            ops = {ast.Add: "add", ast.Sub: "sub", ast.Mult: "mul", ast.Div: "div"}
+            for k, nm in ops.items():
+                if isinstance(n.op, k):
+                    return f"(E.{nm} {self.e(n.left)} {self.e(n.right)})"
+        if isinstance(n, ast.Call):
+            if isinstance(n.func, ast.Attribute) and n.func.attr == "astype" and len(n.args) == 1 and ast.unparse(n.args[0]) in ("float", "np.float64", "'float64'", "np.double"):
+                return self.e(n.func.value)      # a float64 array stays what it is
+            nm = _npname(n.func)
+            un = {"abs": "abs", "absolute": "abs", "fabs": "abs", "arccos": "acos", "acos": "acos", "sqrt": "sqrt", "degrees": "deg", "rad2deg": "deg"}
+            bi = {"minimum": "min", "fmin": "min", "maximum": "max", "fmax": "max", "arctan2": "atan2", "atan2": "atan2"}
+            if nm in un and len(n.args) == 1 and not n.keywords:
+                return f"(E.{un[nm]} {self.e(n.args[0])})"
+            if nm in bi and len(n.args) == 2 and not n.keywords:
+                return f"(E.{bi[nm]} {self.e(n.args[0])} {self.e(n.args[1])})"
+            if nm in ("power", "pow") and len(n.args) == 2 and _const(n.args[1]) == 2:
+                x = self.e(n.args[0])
+                return f"(E.mul {x} {x})"
+            if nm == "square" and len(n.args) == 1:
+                x = self.e(n.args[0])
+                return f"(E.mul {x} {x})"
+            if nm == "where" and len(n.args) == 3:
+                return self.cond(n.args[0], self.e(n.args[1]), self.e(n.args[2]))
+            if nm == "setitem" and len(n.args) == 3:      # x[mask] = v on a fresh array: elementwise "v where mask else x"
+                return self.cond(n.args[1], self.e(n.args[2]), self.e(n.args[0]))
+        _need(False, self.fname, "row-level arithmetic the translation knows (+ - * / **2 abs minimum maximum arccos sqrt arctan2 degrees where, masked assignment)", n)
+
+
+def _isinstance_chain(node, fname):
+    """a if isinstance(p, T1) else b if isinstance(p, T2) else c  ->  ([(T1, a), (T2, b)], c, p)"""
+    out, par = [], None
+    while isinstance(node, ast.IfExp) and isinstance(node.test, ast.Call) and ast.unparse(node.test.func) == "isinstance" and len(node.test.args) == 2:
+        p = ast.unparse(node.test.args[0])
+        _need(par in (None, p), fname, f"one dispatch on the type of `{par}`", node.test)
+        par = p
+        out.append((ast.unparse(node.test.args[1]), node.body))
+        node = node.orelse
+    return out, node, par
+
+
+def _norm_mode(num, den, fname):
+    """`num / den` where den is a norm of num: 'row' (each row by its own norm), 'all' (Frobenius norm of the batch), 'col'"""
+    d = den
+    newaxis = False
+    if isinstance(d, ast.Subscript):
+        sl = ast.unparse(d.slice).replace(" ", "").strip("()")
+        _need(sl in (":,np.newaxis", ":,None"), fname, "`[:, np.newaxis]` after the norm", d)
+        newaxis, d = True, d.value
+    _need(isinstance(d, ast.Call) and _npname(d.func) == "linalg.norm" and d.args and _eqn(d.args[0], num), fname, "np.linalg.norm of the divided array", den)
+    ax, kd = _kw(d, "axis", 2), _kw(d, "keepdims", 3)
+    ax = _const(ax) if ax is not None else None
+    keep = isinstance(kd, ast.Constant) and kd.value is True
+    if ax is None and _kw(d, "axis", 2) is None:
+        return "all"
+    if ax in (1, -1) and (keep != newaxis):
+        return "row"
+    if ax == 0:
+        return "col"
+    _need(False, fname, "np.linalg.norm(x, axis=1, keepdims=True) / np.linalg.norm(x, axis=1)[:, np.newaxis] / np.linalg.norm(x)", den)
+
+
+def _find_normalised(node, fname):
+    """first sub-expression `X / norm(X …)` of the tree"""
+    for n in ast.walk(node):
+        if isinstance(n, ast.BinOp) and isinstance(n.op, ast.Div):
+            d = n.right.value if isinstance(n.right, ast.Subscript) else n.right
+            if isinstance(d, ast.Call) and _npname(d.func) == "linalg.norm" and d.args and _eqn(d.args[0], n.left):
+                return n
+    _need(False, fname, "a normalisation `x / np.linalg.norm(x, …)`", node)
+
+
+def _struct_angular(fn):
+    nf = normal_form(fn)
+    F = fn.name
+    _need(isinstance(nf, ast.IfExp) and isinstance(nf.orelse, ast.Tuple) and len(nf.orelse.elts) == 2, F, "`<early exit> if <shape test> else (angle, dist)`", nf)
+    t = nf.test
+    _need(isinstance(t, ast.Compare) and len(t.ops) == 1 and isinstance(t.ops[0], ast.NotEq) and isinstance(t.left, ast.Attribute) and t.left.attr == "shape"
+          and isinstance(t.comparators[0], ast.Attribute) and t.comparators[0].attr == "shape", F, "the shape test `q1.shape != q2.shape`", t)
+    Q = [t.left.value, t.comparators[0].value]
+
+    def var(n):
+        if isinstance(n, ast.Call) and _npname(n.func) == "sum" and n.args and isinstance(n.args[0], ast.BinOp) and isinstance(n.args[0].op, ast.Mult):
+            l, r = n.args[0].left, n.args[0].right
+            ax = _kw(n, "axis", 1)
+            if ((_eqn(l, Q[0]) and _eqn(r, Q[1])) or (_eqn(l, Q[1]) and _eqn(r, Q[0]))) and ax is not None and _const(ax) in (1, -1) and len(n.keywords) <= 1:
+                return "dot"       # the reduction runs over the 4 components of each row (axis=1): one number per pair
+        return None
+    tr = ETrans(F, var)
+    ang, dist2 = tr.e(nf.orelse.elts[0]), tr.e(nf.orelse.elts[1])
+    R, qform = [], []
+    for q in Q:
+        _need(isinstance(q, ast.Call) and _npname(q.func) == "array" and len(q.args) == 1 and isinstance(q.args[0], ast.Call) and isinstance(q.args[0].func, ast.Attribute)
+              and q.args[0].func.attr == "as_quat" and not q.args[0].args, F, "`np.array(<rotation>.as_quat(), ndmin=2)`", q)
+        R.append(q.args[0].func.value)
+        qform.append(ast.unparse(_replace(q, R[-1], "<R>")))
+    tables, sym = [], []
+    for i, r in enumerate(R):
+        _need(isinstance(r, ast.IfExp) and ast.unparse(r.test) == "c_symmetry > 1", F, "`<symmetry-reduced rotation> if c_symmetry > 1 else <input rotation>`", r)
+        chain, els, par = _isinstance_chain(r.orelse, F)
+        _need(chain and par == fn.args.args[i].arg and ast.unparse(els) == par, F, f"the isinstance dispatch on parameter {i + 1} ending in the parameter itself", r.orelse)
+        tables.append([(ty, ast.unparse(_replace(body, ast.Name(id=par, ctx=ast.Load()), "<arg>"))) for ty, body in chain] + [("*", "<arg>")])
+        sym.append(ast.unparse(_replace(r.body, r.orelse, "<IN>")))
+    skeleton = ["exit: " + ast.unparse(nf.body) + " if <Q1>.shape != <Q2>.shape",
+                "Q1 = " + qform[0], "Q2 = " + qform[1], "R = <SYM> if c_symmetry > 1 else <IN>", "SYM1 = " + sym[0], "SYM2 = " + sym[1],
+                "dot = np.sum(<Q1> * <Q2>, axis=1)", "return (<E angExpr>, <E dist2Expr>)"]
+    return dict(header=_header(fn), ang=ang, dist2=dist2, tables=tables, skeleton=skeleton)
+
+
+def _struct_normals(fn):
+    nf = normal_form(fn)
+    F = fn.name
+    _need(isinstance(nf, ast.BinOp) and isinstance(nf.op, ast.Div), F, "`points / <norm of points>`", nf)
+    mode = _norm_mode(nf.left, nf.right, F)
+    return dict(header=_header(fn), mode=mode, skeleton=["P = " + ast.unparse(nf.left), "return <P> / <norm of P by " + mode + ">"])
+
+
+def _struct_n2e(fn):
+    nf = normal_form(fn)
+    F = fn.name
+    chain, els, par = _isinstance_chain(nf, F)
+    _need(chain and par == fn.args.args[0].arg, F, "the isinstance dispatch on the first parameter", nf)
+    _need(isinstance(els, ast.Call) and ast.unparse(els.func) == "RAISE", F, "a final `else: raise`", els)
+    table, bodies, mode = [], [], None
+    for ty, body in chain:
+        u = _find_normalised(body, F)
+        m = _norm_mode(u.left, u.right, F)
+        _need(mode in (None, m), F, "the same normalisation in every branch", u)
+        mode = m
+        table.append((ty, ast.unparse(_replace(u.left, ast.Name(id=par, ctx=ast.Load()), "<arg>"))))
+        bodies.append(_replace(body, u, "<U>"))
+    _need(all(_eqn(b, bodies[0]) for b in bodies), F, "the same computation after the input dispatch in every branch", bodies[-1])
+    table.append(("*", "raise " + ast.unparse(els.args[0])))
+    body = bodies[0]
+
+    def var(n):
+        if isinstance(n, ast.Subscript) and isinstance(n.value, ast.Name) and n.value.id == "<U>":
+            sl = ast.unparse(n.slice).replace(" ", "").strip("()")
+            return {":,0": "ux", ":,1": "uy", ":,2": "uz"}.get(sl)
+        return None
+    tr = ETrans(F, var)
+    exprs, phi = {}, None
+
+    def role(col):
+        nonlocal phi
+        if any(isinstance(x, ast.Attribute) and x.attr == "random" for x in ast.walk(col)):
+            txt = ast.unparse(col)
+            _need(phi in (None, txt), F, "one random in-plane angle", col)
+            phi = txt
+            return "phi"
+        t = tr.e(col)
+        r = "theta" if "E.sqrt" in t else "psi"      # verified, not trusted: n2eBatchE_eq proves what each expression evaluates to
+        _need(exprs.get(r) in (None, t), F, f"one formula for {r}", col)
+        exprs[r] = t
+        return r
+    orders, node = [], body
+    while True:
+        def cols(c):
+            _need(isinstance(c, ast.Call) and _npname(c.func) == "column_stack" and len(c.args) == 1 and isinstance(c.args[0], (ast.Tuple, ast.List)) and len(c.args[0].elts) == 3,
+                  F, "`np.column_stack((a, b, c))`", c)
+            return [role(e) for e in c.args[0].elts]
+        if isinstance(node, ast.IfExp):
+            c = node.test
+            _need(isinstance(c, ast.Compare) and ast.unparse(c.left) == "output_order" and len(c.ops) == 1 and isinstance(c.ops[0], ast.Eq) and isinstance(c.comparators[0], ast.Constant),
+                  F, "`output_order == <literal>`", c)
+            orders.append((c.comparators[0].value, cols(node.body)))
+            node = node.orelse
+        else:
+            orders.append(("*", cols(node)))
+            break
+    _need("theta" in exprs and "psi" in exprs and phi is not None, F, "columns phi, theta and psi", body)
+    skeleton = ["U = <S> / <norm of S by " + mode + ">", "phi = " + phi, "return np.column_stack(<columns by output_order>)"]
+    return dict(header=_header(fn), mode=mode, table=table, orders=orders, theta=exprs["theta"], psi=exprs["psi"], skeleton=skeleton)
 
 
 def _assigned_exprs(fn, name):
@@ -155,15 +745,23 @@ def _assigned_exprs(fn, name):
 
 
 def _ret_role(fn, k):
-    """which primitive the k-th element of the tuple `fn` returns holds, decided from the expression it was computed by (not from its name)"""
-    rets = [n for n in ast.walk(fn) if isinstance(n, ast.Return) and isinstance(n.value, ast.Tuple)]
-    if len(rets) != 1 or k >= len(rets[0].value.elts) or not isinstance(rets[0].value.elts[k], ast.Name):
-        raise core.AnchorMissing(f"{fn.name}: single `return (..)` of names with element {k}")
-    ex = " ; ".join(_assigned_exprs(fn, rets[0].value.elts[k].id))
-    for pat, role in (("cone_distance(", "cone"), ("inplane_distance(", "inp"), ("np.arccos(", "ang"), ("np.power(", "dist2")):
+    """which primitive the k-th element of the tuple `fn` returns holds, decided from the EXPRESSION it evaluates to (symbolic execution with the
+    temporaries inlined), not from the name of a variable"""
+    nf = normal_form(fn)
+    leaf = nf
+    while isinstance(leaf, ast.IfExp):      # the value returned on the main path (early exits are the `body` side of the guards)
+        leaf = leaf.orelse
+    if not isinstance(leaf, ast.Tuple) or k >= len(leaf.elts):
+        raise core.AnchorMissing(f"{fn.name}: expected a returned tuple with an element {k}, found `{ast.unparse(leaf)[:100]}`")
+    ex = ast.unparse(leaf.elts[k])
+    head = ex.split("(")[0]
+    for pat, role in (("cone_distance", "cone"), ("inplane_distance", "inp")):
+        if head == pat:
+            return role
+    for pat, role in (("arccos(", "ang"), ("power(", "dist2"), ("** 2", "dist2")):
         if pat in ex:
             return role
-    raise core.AnchorMissing(f"{fn.name}: role of returned element {k}: {ex[:80]}")
+    raise core.AnchorMissing(f"{fn.name}: cannot tell which primitive the returned element {k} is: `{ex[:100]}`")
 
 
 def _compare_table(src):
@@ -201,38 +799,6 @@ def _compare_table(src):
     return table, els
 
 
-def _n2e_orders(src):
-    fn = src.find(REL, "normals_to_euler_angles")
-
-    def role(name):
-        ex = " ; ".join(_assigned_exprs(fn, name)[:1])
-        if "random" in ex:
-            return "phi"
-        if "arctan2" in ex:
-            return "theta" if "sqrt" in ex else "psi"
-        raise core.AnchorMissing(f"normals_to_euler_angles: role of {name}")
-
-    def cols(stmts):
-        if len(stmts) == 1 and isinstance(stmts[0], ast.Assign) and isinstance(stmts[0].value, ast.Call) and ast.unparse(stmts[0].value.func) == "np.column_stack":
-            return [role(e.id) for e in stmts[0].value.args[0].elts]
-        raise core.AnchorMissing("normals_to_euler_angles: column_stack branch")
-    node = next((st for st in fn.body if isinstance(st, ast.If) and "output_order" in ast.unparse(st.test)), None)
-    table = []
-    while node is not None:
-        c = node.test
-        if not (isinstance(c, ast.Compare) and ast.unparse(c.left) == "output_order" and isinstance(c.ops[0], ast.Eq) and isinstance(c.comparators[0], ast.Constant)):
-            raise core.AnchorMissing("normals_to_euler_angles: `if output_order == <literal>`")
-        table.append((c.comparators[0].value, cols(node.body)))
-        if len(node.orelse) == 1 and isinstance(node.orelse[0], ast.If):
-            node = node.orelse[0]
-        else:
-            table.append(("*", cols(node.orelse)))
-            node = None
-    if not table:
-        raise core.AnchorMissing("normals_to_euler_angles: output_order dispatch")
-    return table
-
-
 def _default(fn, name):
     a = fn.args
     pos = a.posonlyargs + a.args
@@ -250,21 +816,26 @@ def translate(src):
     A = src.anchor
     f = lambda name: src.find(REL, name)
     tol = A("ANGLE_DEGREES_TOL", lambda: next(src.literal(st.value) for st in src.tree(REL).body
-                                               if isinstance(st, ast.Assign) and ast.unparse(st.targets[0]) == "ANGLE_DEGREES_TOL"))
+                                               if isinstance(st, (ast.Assign, ast.AnnAssign)) and ast.unparse(st.targets[0] if isinstance(st, ast.Assign) else st.target) == "ANGLE_DEGREES_TOL"))
     fr = Fraction(str(tol)) if isinstance(tol, (int, float)) and not isinstance(tol, bool) else Fraction(DOC["tol"])
     bodies = {}
     for name, lean in FUNCS:
         bodies[lean] = A(f"{name}:body", lambda name=name: dump_fn(f(name)))
+    sa = A("angular_distance:structure", lambda: _struct_angular(f("angular_distance"))) or {}
+    sn = A("euler_angles_to_normals:structure", lambda: _struct_normals(f("euler_angles_to_normals"))) or {}
+    s2 = A("normals_to_euler_angles:structure", lambda: _struct_n2e(f("normals_to_euler_angles"))) or {}
     ct = A("compare_rotations:branch-table", lambda: _compare_table(src))
     table, els = ct if ct else (DOC["compareBranches"], DOC["compareElse"])
-    orders = A("normals_to_euler_angles:output_order-table", lambda: _n2e_orders(src)) or DOC["n2eOrders"]
+    orders = s2.get("orders") or DOC["n2eOrders"]
     rtd = A("compare_rotations:default rotation_type", lambda: _default(f("compare_rotations"), "rotation_type"))
     ood = A("normals_to_euler_angles:default output_order", lambda: _default(f("normals_to_euler_angles"), "output_order"))
     S = core.lean_str
     L = lambda xs: core.lean_str_list(xs)
     T = lambda tb: "[" + ", ".join(f"({S(str(k))}, {L(v)})" for k, v in tb) + "]"
+    P = lambda tb: "[" + ", ".join(f"({S(str(k))}, {S(str(v))})" for k, v in tb) + "]"
     lines = [f"-- GENERATED by harness/props/c06.py from {REL}; do not edit", "namespace CryoCat.Gen.C06",
              f"def anchorsOk : Bool := {'true' if src.ok else 'false'}",
+             E_TEMPLATE,
              "/-- ANGLE_DEGREES_TOL as an exact decimal fraction -/",
              f"def angleTolNum : Nat := {fr.numerator}", f"def angleTolDen : Nat := {fr.denominator}",
              "/-- (rotation_type literal, which primitives the branch returns, in order); after the last branch: -/",
@@ -274,7 +845,25 @@ def translate(src):
              "/-- (output_order literal, which quantity each output column holds); \"*\" is the else branch -/",
              f"def n2eOrders : List (String × List String) := {T(orders)}",
              f"def outputOrderDefault : String := {S(ood if isinstance(ood, str) else DOC['outputOrderDefault'])}",
-             "/-- normalised whole-body dumps (header with defaults, then every statement in order, locals alpha-normalised) -/"]
+             "/-! `angular_distance`, translated: signature, per-argument input dispatch (python type -> conversion; \"*\" = else), the two returned",
+             "row-level formulas in the variable `dot` = `np.sum(q1 * q2, axis=1)`, and the glue between them -/",
+             f"def angHeader : String := {S(sa.get('header', ''))}",
+             "def angInputs : List (List (String × String)) := [" + ", ".join(P(t) for t in (sa.get('tables') or DOC['angInputs'])) + "]",
+             f"def angExpr : E := {sa.get('ang') or DOC['angExpr']}",
+             f"def dist2Expr : E := {sa.get('dist2') or DOC['dist2Expr']}",
+             f"def angSkeleton : List String := {L(sa.get('skeleton', []))}",
+             "/-! `euler_angles_to_normals`, translated: how the batch of z-axis images is normalised (\"row\" = `np.linalg.norm(…, axis=1, keepdims=True)`) -/",
+             f"def normalsHeader : String := {S(sn.get('header', ''))}",
+             f"def normalsNormMode : String := {S(sn.get('mode') or DOC['normMode'])}",
+             f"def normalsSkeleton : List String := {L(sn.get('skeleton', []))}",
+             "/-! `normals_to_euler_angles`, translated: input dispatch, normalisation mode, theta / psi in the variables `ux uy uz` (normalised normal) -/",
+             f"def n2eHeader : String := {S(s2.get('header', ''))}",
+             f"def n2eInputs : List (String × String) := {P(s2.get('table') or DOC['n2eInputs'])}",
+             f"def n2eNormMode : String := {S(s2.get('mode') or DOC['normMode'])}",
+             f"def n2eThetaExpr : E := {s2.get('theta') or DOC['thetaExpr']}",
+             f"def n2ePsiExpr : E := {s2.get('psi') or DOC['psiExpr']}",
+             f"def n2eSkeleton : List String := {L(s2.get('skeleton', []))}",
+             "/-- normalised whole-body dumps (header with defaults, then every statement in order, locals alpha-normalised) of the other anchored functions -/"]
     for name, lean in FUNCS:
         lines.append(f"def {lean} : List String := {L(bodies[lean] or [])}")
     lines.append("end CryoCat.Gen.C06")
@@ -324,8 +913,11 @@ def cube_eulers():
 
 def _rand_euler(rng):
     k = rng.random()
-    if k < 0.7:
+    if k < 0.55:
         return [rng.uniform(-180, 180), math.degrees(math.acos(rng.uniform(-1, 1))), rng.uniform(-180, 180)]
+    if k < 0.7:   # H3: decimal angles with 1-3 decimals, as read from a STAR/em file (not on the dyadic grid)
+        d = rng.choice([1, 2, 2, 3])
+        return [round(rng.uniform(-180, 180), d), round(rng.uniform(0, 180), d), round(rng.uniform(-180, 180), d)]
     if k < 0.85:  # outside the canonical range
         return [rng.uniform(-720, 720), rng.uniform(-360, 360), rng.uniform(-720, 720)]
     return [float(rng.randint(-180, 180)), float(rng.randint(0, 180)), float(rng.randint(-180, 180))]
@@ -337,6 +929,11 @@ def _lattice(rng):
 
 def _gimbal(rng):
     return [rng.uniform(-180, 180), rng.choice([0.0, 180.0, 0.0, 180.0, -0.0, 360.0, -180.0]), rng.uniform(-180, 180)]
+
+
+def _int_euler(rng):
+    """whole-number angles (what an all-integer STAR table / a hand-written list holds): the array can then be of INTEGER dtype"""
+    return [float(rng.randint(-360, 360)), float(rng.choice([0, 180, rng.randint(0, 180), rng.randint(-180, 360)])), float(rng.randint(-360, 360))]
 
 
 def _gimbal_int(rng):
@@ -391,10 +988,15 @@ def _partner(rng, a, kind):
         return list(rng.choice(cube_eulers()))
     if kind == "lattice":
         return _lattice(rng)
+    if kind == "int":
+        return _int_euler(rng)
     raise ValueError(kind)
 
 
 KINDS = ["random", "near", "equal", "antipodal", "zflip", "gimbal", "cube", "lattice"]
+INT_KINDS = ["cube", "lattice", "int", "int"]      # rows whose angles are whole numbers (H3: integer-typed input arrays)
+INPUTS = ["ndarray", "rotation", "ndarray", "rotation", "mixed", "mixed2"]   # mixed: ndarray first, Rotation second; mixed2: the other way round
+FORMS = {"ndarray": ("nd", "nd"), "rotation": ("rot", "rot"), "mixed": ("nd", "rot"), "mixed2": ("rot", "nd")}
 RTYPES = ["angular_distance", "cone_distance", "in_plane_distance"]
 BOGUS = ["inplane_distance", "cone", "ALL", "", "angular", "all "]
 
@@ -408,23 +1010,30 @@ def _first(rng, kind):
         return list(rng.choice(cube_eulers()))
     if kind == "lattice":
         return _lattice(rng)
+    if kind == "int":
+        return _int_euler(rng)
     return _rand_euler(rng)
 
 
-def _pair_case(rng, n, kinds=None, input=None):
+def _pair_case(rng, n, kinds=None, input=None, intdtype=False):
     a, b, c, tags = [], [], [], []
+    if intdtype:
+        kinds = INT_KINDS
     for _ in range(n):
         kind = rng.choice(kinds or KINDS)
         ea = _first(rng, kind)
         eb = _partner(rng, ea, kind)
-        kc = rng.choice(KINDS)
+        kc = rng.choice(INT_KINDS if intdtype else KINDS)
         ec = _partner(rng, eb if rng.random() < 0.5 else ea, kc)
         a.append(ea); b.append(eb); c.append(ec); tags.append(kind + "/" + kc)
     g = list(rng.choice(cube_eulers())) if rng.random() < 0.2 else _rand_euler(rng)
     # G1: in ~30 % of the cases every optional keyword is OMITTED so that the library's own defaults are exercised
-    return dict(kind="pair", a=_bits_rows(a), b=_bits_rows(b), c=_bits_rows(c), g=[f2b(x) for x in g], tags=tags,
-                input=input or rng.choice(["ndarray", "rotation"]), single=(n == 1 and rng.random() < 0.5),
-                explicit=rng.random() < 0.7, bogus=rng.choice(BOGUS))
+    out = dict(kind="pair", a=_bits_rows(a), b=_bits_rows(b), c=_bits_rows(c), g=[f2b(x) for x in g], tags=tags,
+               input=input or rng.choice(INPUTS), single=(n == 1 and rng.random() < 0.5),
+               explicit=rng.random() < 0.7, bogus=rng.choice(BOGUS))
+    if intdtype:
+        out["dtype"] = "int64"
+    return out
 
 
 def _normals_case(rng, n):
@@ -432,7 +1041,17 @@ def _normals_case(rng, n):
     for _ in range(n):
         k = rng.random()
         ang.append(_rand_euler(rng) if k < 0.6 else (_gimbal(rng) if k < 0.75 else (_lattice(rng) if k < 0.9 else list(rng.choice(cube_eulers())))))
-    return dict(kind="normals", ang=_bits_rows(ang), oned=(n == 1 and rng.random() < 0.5))
+    out = dict(kind="normals", ang=_bits_rows(ang), oned=(n == 1 and rng.random() < 0.5))
+    u = rng.random()
+    # H3: `angles` is array-like (it goes straight into scipy's from_euler): nested list / tuple of tuples; integer-typed ndarray for whole-number angles
+    if u < 0.12:
+        out["form"] = "list"
+    elif u < 0.2:
+        out["form"] = "tuple"
+    elif u < 0.32:
+        out["ang"] = _bits_rows([_int_euler(rng) if rng.random() < 0.6 else (_lattice(rng) if rng.random() < 0.5 else list(rng.choice(cube_eulers()))) for _ in range(n)])
+        out["form"] = "int64"
+    return out
 
 
 def _normal_vec(rng):
@@ -471,11 +1090,28 @@ def _sumsq_state(v):
     return "ok"
 
 
-def _n2e_case(rng, n):
+def _int_normal(rng):
+    """whole-number normal (difference of voxel coordinates, a hand-written direction): the array can be of INTEGER dtype"""
+    k = rng.random()
+    if k < 0.25:
+        ax = rng.randrange(3); v = [0.0, 0.0, 0.0]; v[ax] = float(rng.choice([-1, 1]) * rng.choice([1, 1, 2, 7, 100]))
+        return v, "axis" + "xyz"[ax] + ("+" if v[ax] > 0 else "-")
+    m = rng.choice([3, 3, 10, 1000, 10 ** 6])
+    v = [float(rng.randint(-m, m)) for _ in range(3)]
+    if k < 0.45:
+        v[1] = 0.0
+    if not any(v):
+        v = [1.0, 2.0, 2.0]
+    t = "y0" if (v[1] == 0 and v[0] != 0) else ("x0" if (v[0] == 0 and v[1] != 0) else ("axisz" + ("+" if v[2] > 0 else "-") if v[0] == 0 and v[1] == 0 else "int"))
+    return v, t
+
+
+def _n2e_case(rng, n, intdtype=None):
     vs, tags = [], []
+    intdtype = (rng.random() < 0.1) if intdtype is None else intdtype
     zero_rows = rng.random() < 0.08 and n >= 2
     for i in range(n):
-        v, t = _normal_vec(rng)
+        v, t = _int_normal(rng) if intdtype else _normal_vec(rng)
         v = [x if math.isfinite(x) else 1.0 for x in v]
         if all(x == 0 for x in v):
             v, t = [1.0, 0.0, 0.0], "axisx+"
@@ -484,7 +1120,12 @@ def _n2e_case(rng, n):
         if zero_rows and i > 0 and rng.random() < 0.3:   # a zero vector has no direction: outside the statement; its row is NaN, the others must be right
             v, t = [rng.choice([0.0, -0.0]) for _ in range(3)], "zero"
         vs.append(v); tags.append(t)
-    return dict(kind="n2e", n=_bits_rows(vs), tags=tags, order=rng.choice(["zxz", "zzx", "zzx", None, None]), df=rng.random() < 0.3)
+    out = dict(kind="n2e", n=_bits_rows(vs), tags=tags, order=rng.choice(["zxz", "zzx", "zzx", None, None]), df=rng.random() < 0.3)
+    if intdtype:
+        out["dtype"] = "int64"
+    if out["df"]:   # H3: row labels a user's table really has (a filtered table keeps gaps, a concatenated one repeats labels)
+        out["df_index"] = rng.choice(["default", "default", "gaps", "dup", "reversed", "text"])
+    return out
 
 
 def _qmult_case(rng, n):
@@ -511,20 +1152,38 @@ def _seq_case(rng, maxn):
         steps = [s1, s2] + ([dict(s1)] if rng.random() < 0.3 else [])
     elif u < 0.8:
         n = rng.randint(1, min(maxn, 8))
-        s1 = _n2e_case(rng, n); s1["df"] = False
-        s2 = _n2e_case(rng, n) if rng.random() < 0.5 else dict(s1)
+        s1 = _n2e_case(rng, n, intdtype=False); s1["df"] = False
+        s2 = _n2e_case(rng, n, intdtype=False) if rng.random() < 0.5 else dict(s1)
         s2["df"] = False; s2["order"] = rng.choice([o for o in ("zxz", "zzx", None) if o != s1["order"]])
         steps = [s1, s2]
     else:
         n = rng.randint(2, 12)
         s1 = _normals_case(rng, n); s2 = _normals_case(rng, n) if rng.random() < 0.6 else dict(s1)
         s1["oned"] = s2["oned"] = False
+        s1.pop("form", None); s2.pop("form", None)     # the shared caller-owned array is a plain float ndarray
         steps = [s1, s2, dict(s1)]
     return dict(kind="seq", steps=steps)
 
 
+def _big_cases(rng):
+    """the upper end of the quantifier ("batches of 1..500 orientations"), in EVERY tier and in the search stream: ndarray pair batches longer than
+    any chunk / block size an implementation is likely to use (257..500 rows, one of them exactly at a power-of-two boundary + 1), one with an ndarray
+    first and a Rotation second, a 257..500-row batch through normals_to_euler_angles and through euler_angles_to_normals"""
+    sizes = [rng.choice([257, 300, 500]), rng.randint(258, 500), rng.choice([257, 385, 500, rng.randint(258, 499)])]
+    yield _pair_case(rng, sizes[0], input="ndarray")
+    yield _pair_case(rng, sizes[1], input=rng.choice(["mixed", "mixed2"]))
+    yield _pair_case(rng, sizes[2], input="ndarray", intdtype=True)
+    c = _n2e_case(rng, rng.randint(257, 500), intdtype=False); c["df"] = False; c.pop("df_index", None)
+    yield c
+    c = _n2e_case(rng, rng.randint(257, 500)); c["df"] = True; c["df_index"] = rng.choice(["gaps", "dup"])
+    yield c
+    c = _normals_case(rng, rng.randint(257, 500)); c.pop("form", None)
+    yield c
+
+
 def generate(rng, tier, n):
     maxn = {"quick": 24, "thorough": 200, "search": 6}[tier]
+    yield from _big_cases(rng)
     if tier == "thorough":  # all 576 ordered pairs of cube rotations, third orientation cycles
         cube = cube_eulers()
         for i in range(24):
@@ -533,9 +1192,13 @@ def generate(rng, tier, n):
                        tags=["cube/cube"] * 24, input="ndarray" if i % 2 else "rotation", single=False, explicit=bool(i % 3), bogus="cone")
     for t in range(n):
         k = rng.random()
-        if k < 0.52:
+        if k < 0.47:
             m = 1 if rng.random() < 0.12 else rng.randint(2, maxn)
             yield _pair_case(rng, m)
+        elif k < 0.515:   # H3: whole-number angles in an INTEGER-typed ndarray (a STAR/em table with integer angles is read as int64)
+            yield _pair_case(rng, 1 if rng.random() < 0.1 else rng.randint(2, maxn), input=rng.choice(["ndarray", "ndarray", "mixed", "mixed2"]), intdtype=True)
+        elif k < 0.52:    # sizes up to the bound the quantifier names
+            yield _pair_case(rng, rng.randint(161, 500) if tier != "search" else rng.randint(257, 300))
         elif k < 0.56:   # many exactly antipodal z-axes / equal rotations in one batch (rare rounding events need many rows)
             yield _pair_case(rng, rng.randint(48, 160), kinds=[rng.choice(["zflip", "zflip", "equal", "antipodal"])])
         elif k < 0.64:
@@ -547,7 +1210,8 @@ def generate(rng, tier, n):
             m = 1 if u < 0.1 else (rng.randint(2, 10) if u < 0.6 else rng.randint(11, 500 if tier != "search" else 12))
             yield _normals_case(rng, m)
         elif k < 0.97:
-            yield _n2e_case(rng, 1 if rng.random() < 0.1 else rng.randint(2, maxn))
+            u = rng.random()
+            yield _n2e_case(rng, 1 if u < 0.1 else (rng.randint(2, maxn) if u < 0.97 or tier == "search" else rng.randint(201, 500)))
         else:
             yield _qmult_case(rng, rng.randint(1, 8))
 
@@ -591,9 +1255,18 @@ def shrink(case):
     if k == "pair":
         n = len(case["a"])
         if n > 8:
-            for sl in (slice(0, n // 2), slice(n // 2, n)):
+            # halves first; then drop a geometrically shrinking number of rows from either end, so that a failure that needs a LONG batch
+            # (a chunk / block boundary) is brought down to the shortest failing length in O(log n) successful steps
+            sls = [slice(0, n // 2), slice(n // 2, n)]
+            k = n // 2
+            while k >= 1:
+                sls += [slice(0, n - k), slice(k, n)]
+                k //= 2
+            for sl in sls:
                 yield dict(case, a=case["a"][sl], b=case["b"][sl], c=case["c"][sl], tags=case["tags"][sl], single=False)
-        if n > 1:
+        if case.get("dtype") != "int64" and case["input"] != "ndarray" and n > 1:
+            yield dict(case, input="ndarray")
+        if 1 < n <= 64:
             for i in range(n):
                 yield dict(case, a=[case["a"][i]], b=[case["b"][i]], c=[case["c"][i]], tags=[case["tags"][i]], single=False)
         else:
@@ -614,16 +1287,29 @@ def shrink(case):
             yield dict(case, ang=case["ang"][:2], oned=False)
             yield dict(case, ang=case["ang"][: n // 2], oned=False)
             yield dict(case, ang=case["ang"][n // 2:], oned=False)
+            k = n // 4
+            while k >= 1:
+                yield dict(case, ang=case["ang"][: n - k], oned=False)
+                yield dict(case, ang=case["ang"][k:], oned=False)
+                k //= 2
+        if case.get("form") in ("list", "tuple"):
+            yield dict(case, form="ndarray")
         vals = _floats(case["ang"])
         snapped = np.round(vals)
         if not np.array_equal(snapped, vals):
             yield dict(case, ang=_bits_rows(snapped))
     elif k == "n2e":
         n = len(case["n"])
-        if n > 1:
+        if n > 8:
+            k = n // 2
+            while k >= 1:
+                yield dict(case, n=case["n"][: n - k], tags=case["tags"][: n - k])
+                yield dict(case, n=case["n"][k:], tags=case["tags"][k:])
+                k //= 2
+        if 1 < n <= 64:
             for i in range(n):
                 yield dict(case, n=[case["n"][i]], tags=[case["tags"][i]])
-        else:
+        elif n == 1:
             v = [b2f(x) for x in case["n"][0]]
             m = max(abs(x) for x in v)
             s = [float(round(x / m)) for x in v] if m > 0 else v
@@ -706,10 +1392,10 @@ class _Guard:
         return _bl(val)
 
 
-def _shared(bufs, role, vals):
+def _shared(bufs, role, vals, dtype=float):
     """G2: the caller-owned array of this role; re-used (overwritten in place) when an earlier step left one of the same shape"""
     if bufs is None:
-        return np.array(vals, dtype=float)
+        return np.array(vals, dtype=float).astype(dtype)
     key = (role, vals.shape)
     if key in bufs:
         bufs[key][...] = vals
@@ -719,13 +1405,17 @@ def _shared(bufs, role, vals):
 
 
 def _run_pair(case, geom, bufs=None):
-    A, B, C = (_shared(bufs, r, _floats(case[r])) for r in ("a", "b", "c"))
+    dt = np.int64 if case.get("dtype") == "int64" else float     # H3: whole-number angles in an integer-typed array
+    A, B, C = (_shared(bufs, r, _floats(case[r]), dt) for r in ("a", "b", "c"))
     g = [b2f(x) for x in case["g"]]
     arrays = dict(a=A, b=B, c=C)
     if case.get("single"):
         A, B, C = A[0], B[0], C[0]
     rA, rB, rC, rG = _rot(A), _rot(B), _rot(C), _rot(g)
-    iA, iB, iC = (A, B, C) if case["input"] == "ndarray" else (rA, rB, rC)
+    f1, f2 = FORMS[case["input"]]          # form of the FIRST / SECOND argument of every two-argument call
+    nd, ro = dict(a=A, b=B, c=C), dict(a=rA, b=rB, c=rC)
+    P = lambda x, y: ((nd if f1 == "nd" else ro)[x], (nd if f2 == "nd" else ro)[y])
+    iA, iB = P("a", "b")
     explicit = case.get("explicit", False)
     kw = dict(convention="zxz", degrees=True, c_symmetry=1) if explicit else {}
     kc = dict(c_symmetry=1) if explicit else {}
@@ -734,7 +1424,7 @@ def _run_pair(case, geom, bufs=None):
     r = G.call("ab", lambda: geom.angular_distance(iA, iB, **kw))
     two = isinstance(r, tuple) and len(r) == 2
     out["ab"], out["dist_ab"] = (G.bits("ab", r[0]), G.bits("dist_ab", r[1])) if two else (None, None)
-    for key, x, y in (("ba", iB, iA), ("ac", iA, iC), ("bc", iB, iC), ("aa", iA, iA), ("l", rG * rA, rG * rB), ("r", rA * rG, rB * rG)):
+    for key, (x, y) in (("ba", P("b", "a")), ("ac", P("a", "c")), ("bc", P("b", "c")), ("aa", P("a", "a")), ("l", (rG * rA, rG * rB)), ("r", (rA * rG, rB * rG))):
         r = G.call(key, lambda: geom.angular_distance(x, y, **kw))
         out[key] = G.bits(key, r[0]) if isinstance(r, tuple) and len(r) == 2 else None
     out["cone_ab"] = G.bits("cone_ab", G.call("cone_ab", lambda: geom.cone_distance(rA, rB)))
@@ -766,8 +1456,13 @@ def _run_pair(case, geom, bufs=None):
 
 
 def _run_normals(case, geom, bufs=None):
-    ang = _shared(bufs, "ang", _floats(case["ang"]))
+    form = case.get("form", "ndarray")
+    ang = _shared(bufs, "ang", _floats(case["ang"]), np.int64 if form == "int64" else float)
     arg = ang[0] if case.get("oned") else ang
+    if form == "list":       # H3: array-like argument (nested list / tuple of tuples), as scipy's from_euler accepts
+        arg = arg.tolist()
+    elif form == "tuple":
+        arg = tuple(arg.tolist()) if case.get("oned") else tuple(tuple(r) for r in arg.tolist())
     out = {}
     G = _Guard(out, dict(angles=ang))
     res = G.call("normals", lambda: geom.euler_angles_to_normals(arg))
@@ -786,10 +1481,19 @@ def _run_normals(case, geom, bufs=None):
 
 def _run_n2e(case, geom, bufs=None):
     import pandas as pd
-    nv = _shared(bufs, "n", _floats(case["n"]))
+    nv = _shared(bufs, "n", _floats(case["n"]), np.int64 if case.get("dtype") == "int64" else float)
     arg = pd.DataFrame(nv, columns=["x", "y", "z"]) if case.get("df") else nv
-    if case.get("df"):  # extra columns in another order must not matter
+    if case.get("df"):  # extra columns in another order must not matter; nor must the row labels (H3: gaps, duplicates, reversed, text)
         arg = arg.assign(extra=1.0)[["z", "extra", "y", "x"]]
+        n = len(nv); how = case.get("df_index", "default")
+        if how == "gaps":
+            arg.index = [3 * i + 5 for i in range(n)]
+        elif how == "dup":
+            arg.index = [i // 2 for i in range(n)]
+        elif how == "reversed":
+            arg.index = list(range(n - 1, -1, -1))
+        elif how == "text":
+            arg.index = [f"p{i % 3}" for i in range(n)]
     order = case.get("order", "zxz")
     out = {}
     G = _Guard(out, dict(normals=nv))
@@ -857,8 +1561,12 @@ def _requests_one(case, obs):
     if k == "pair":
         a, b, c, g = case["a"], case["b"], case["c"], case["g"]
         n = len(a)
-        reqs = [dict(op="dist", a=a, b=b), dict(op="dist", a=b, b=a), dict(op="dist", a=a, b=c), dict(op="dist", a=b, b=c),
-                dict(op="dist", a=a, b=b, g=g, side="left"), dict(op="dist", a=a, b=b, g=g, side="right"), dict(op="dist", a=a, b=a),
+        # python types of the FIRST / SECOND argument: the model looks them up in the regenerated isinstance dispatch of angular_distance
+        ty = {"nd": "np.ndarray", "rot": "Rotation"}
+        fm = [ty[x] for x in FORMS[case["input"]]]
+        rr = ["Rotation", "Rotation"]
+        reqs = [dict(op="dist", a=a, b=b, forms=fm), dict(op="dist", a=b, b=a, forms=fm), dict(op="dist", a=a, b=c, forms=fm), dict(op="dist", a=b, b=c, forms=fm),
+                dict(op="dist", a=a, b=b, g=g, side="left", forms=rr), dict(op="dist", a=a, b=b, g=g, side="right", forms=rr), dict(op="dist", a=a, b=a, forms=fm),
                 dict(op="inplane", p1=obs["phiA"], p2=obs["phiB"]),
                 dict(op="inplane", p1=[r[0] for r in a], p2=[r[0] for r in b])]
         nan = f2b(float("nan"))
@@ -866,13 +1574,13 @@ def _requests_one(case, obs):
         for i in range(n):
             rows.append([obs[key][i] if obs.get(key) is not None and i < len(obs[key]) else nan for key in ("ab", "ba", "ac", "bc", "l", "r")])
         tight = [dict(op="check", obs=rows, tol=f2b(TOL_LOOSE)), dict(op="check", obs=rows, tol=f2b(TOL_TIGHT))]
-        cmp_ = [dict(op="compare", a=a, b=b, p1=obs["phiA"], p2=obs["phiB"],
+        cmp_ = [dict(op="compare", a=a, b=b, p1=obs["phiA"], p2=obs["phiB"], forms=fm,
                      types=[("all" if case.get("explicit") else None)] + RTYPES + [case.get("bogus", "cone")])]
         return reqs + tight + cmp_
     if k == "normals":
         return [dict(op="normals", ang=case["ang"])]
     if k == "n2e":
-        r = dict(op="n2e", n=case["n"])
+        r = dict(op="n2e", n=case["n"], pytype="pd.DataFrame" if case.get("df") else "np.ndarray")
         if case.get("order", "zxz") is not None:
             r["order"] = case.get("order", "zxz")
         return [r] + ([dict(op="zaxis", ang=[[b if b2f(b) == b2f(b) else f2b(0.0) for b in row] for row in obs["ang"]])] if obs.get("ang") else [])
@@ -1052,9 +1760,9 @@ def _judge_pair(case, obs, resps):
         for i in range(n):
             if not _ang_close(impl[nm][i], model[nm][i]):
                 out.append(dict(kind="corr", clause="angdist-vs-model", detail=f"{nm} row {i}: impl {impl[nm][i]!r} model {model[nm][i]!r}")); return out
-    d2i, d2m = F("dist_ab"), _fl(m["ab"]["dist2"])
+    d2i, d2m, d2s = F("dist_ab"), _fl(m["ab"]["dist2"]), _fl(m["ab"]["dist2s"])    # dist2s: the regenerated expression incl. the snap below 1e-7
     for i in range(n):
-        exp = 0.0 if d2m[i] < 10e-8 else d2m[i]
+        exp = d2s[i]
         if abs(d2i[i] - exp) > 1e-12 and not (abs(d2m[i] - 10e-8) < 1e-12):
             out.append(dict(kind="corr", clause="dist2-vs-model", detail=f"row {i}: impl {d2i[i]} model {d2m[i]}")); return out
     cone_m = _fl(m["ab"]["cone"])
@@ -1149,8 +1857,14 @@ def _judge_n2e(case, obs, resps):
     m = resps[0]
     if "error" in m or "error" in resps[1]:
         return [dict(kind="corr", clause="driver", detail=str(m)[:200])]
+    if "raises" in m:    # the regenerated input dispatch of the model rejects a type the implementation accepted
+        return [dict(kind="corr", clause="n2e-input-dispatch-vs-model", detail=f"input of type {'pd.DataFrame' if case.get('df') else 'np.ndarray'}: model {m['raises']!r}, implementation returned angles")]
     zl = _floats(resps[1]["z"])   # Lean zxz model (zaxisOfEuler) applied to the implementation's angles
+    # C06-K1 (H5, exact rule): the row is WRONG (NaN angle, or z-axis off per Lean AND scipy) AND its squared length x*x+y*y+z*z overflows or is
+    # not a normal double. Such rows are set aside; EVERY other row of the batch -- and the column order, the return type and the model
+    # comparison of the case -- is judged as usual; the K1 finding is reported only when nothing unlisted is found.
     k1 = []
+    k1rows = np.zeros(n, dtype=bool)
     for i in range(n):
         if zero[i]:
             continue
@@ -1162,18 +1876,18 @@ def _judge_n2e(case, obs, resps):
             bad = (f"row {i} ({case['tags'][i]}): normal {nv[i].tolist()} -> angles (phi,theta,psi)={ang[i].tolist()} whose z-axis is {zl[i].tolist()}, "
                    f"expected the normalised normal {u[i].tolist()}")
         if bad and state != "ok":
-            k1.append(dict(kind="spec", clause="n2e-zaxis-is-normalised-normal", known="C06-K1",
+            # its own clause name: the shrinker keeps (kind, clause) fixed, so an unlisted failure can never be "shrunk" into a row of the known finding
+            k1.append(dict(kind="spec", clause="n2e-zaxis-is-normalised-normal[squared-length-outside-binary64]", known="C06-K1",
                            detail=bad + f" [x*x+y*y+z*z {state}s in binary64: np.linalg.norm gives {'inf' if state == 'overflow' else '0 or a subnormal'}]"))
+            k1rows[i] = True
             continue
         if bad:
             return [dict(kind="spec", clause="n2e-zaxis-is-normalised-normal", detail=bad)]
         if state == "ok" and not (0 <= ang[i][0] < 360):
             return [dict(kind="corr", clause="n2e-phi-range", detail=f"row {i}: phi {ang[i][0]}")]
-    if k1:
-        return k1[:1]
     if obs["types"].get("n2e") != "ndarray:float64:2d":
         return [dict(kind="corr", clause="return-type-vs-documented", detail=f"normals_to_euler_angles returned {obs['types'].get('n2e')}, documented ndarray (n,3)")]
-    live = ~zero
+    live = ~zero & ~k1rows & ~np.isnan(ang).any(axis=1)
     if live.any() and not np.abs(zl[live] - z[live]).max() <= TOL_VEC:
         i = int(np.nanargmax(np.where(live, np.abs(zl - z).max(axis=1), -1)))
         return [dict(kind="corr", clause="zaxis-scipy-vs-model", detail=f"row {i}: scipy {z[i].tolist()} model {zl[i].tolist()} angles={ang[i].tolist()}")]
@@ -1190,13 +1904,15 @@ def _judge_n2e(case, obs, resps):
             if not (math.isnan(ang[i][1]) and math.isnan(th[i])):
                 return [dict(kind="corr", clause="n2e-zero-normal-vs-model", detail=f"row {i}: zero normal -> impl theta {ang[i][1]}, model {th[i]}")]
             continue
+        if k1rows[i]:
+            continue
         dps = abs(ang[i][2] - ps[i]); dps = min(dps, abs(360 - dps))
         near_pole = math.hypot(u[i][0], u[i][1]) < 1e-6
         if abs(ang[i][1] - th[i]) > 1e-8 or (dps > 1e-8 and not near_pole):
             return [dict(kind="corr", clause="n2e-angles-vs-model", detail=f"row {i}: normal {nv[i].tolist()} impl theta,psi={ang[i][1]},{ang[i][2]} model {th[i]},{ps[i]}")]
         if _sumsq_state(nv[i]) == "ok" and not np.abs(mz[i] - u[i]).max() <= TOL_VEC:   # (outside: binary64 is not the ordered field of n2e_zaxis, see C06-K1)
             return [dict(kind="corr", clause="n2e-model-zaxis", detail=f"row {i}: model z-axis {mz[i].tolist()} expected {u[i].tolist()}")]
-    return []
+    return k1[:1]
 
 
 def _judge_mismatch(case, obs, resps):
@@ -1271,7 +1987,8 @@ def _stats_one(case, obs, resps, st):
     k = case["kind"]
     if k == "pair":
         n = len(case["a"])
-        st.setdefault("pair_batch", []).append("1" if n == 1 else ("2-8" if n <= 8 else ("9-24" if n <= 24 else ">24")))
+        st.setdefault("pair_batch", []).append("1" if n == 1 else ("2-8" if n <= 8 else ("9-24" if n <= 24 else ("25-256" if n <= 256 else "257-500"))))
+        st.setdefault("pair_dtype", []).append(case.get("dtype", "float64"))
         st.setdefault("pair_row_kind", []).extend(t.split("/")[0] for t in case["tags"])
         st.setdefault("third_kind", []).extend(t.split("/")[1] for t in case["tags"])
         st.setdefault("input_form", []).append(case["input"] + ("-single" if case.get("single") else ""))
@@ -1297,11 +2014,16 @@ def _stats_one(case, obs, resps, st):
         n = len(case["ang"])
         st.setdefault("normals_batch", []).append("1" if n == 1 else ("2-10" if n <= 10 else ("11-100" if n <= 100 else "101-500")))
         st.setdefault("normals_1d_input", []).append(bool(case.get("oned")))
+        st.setdefault("normals_argument_form", []).append(case.get("form", "ndarray"))
         th = _floats(case["ang"])[:, 1]
         st.setdefault("normals_theta", []).extend(("in [0,180]" if 0 <= t <= 180 else "outside [0,180]") for t in th[:20])
     elif k == "n2e":
         st.setdefault("normal_kind", []).extend(case["tags"])
         st.setdefault("n2e_input", []).append(("DataFrame" if case.get("df") else "ndarray") + "/" + ("<output_order omitted>" if case.get("order", "zxz") is None else case.get("order", "zxz")))
+        st.setdefault("n2e_batch", []).append("1" if len(case["n"]) == 1 else ("2-24" if len(case["n"]) <= 24 else ("25-256" if len(case["n"]) <= 256 else "257-500")))
+        st.setdefault("n2e_dtype", []).append(case.get("dtype", "float64"))
+        if case.get("df"):
+            st.setdefault("n2e_dataframe_row_labels", []).append(case.get("df_index", "default"))
         nv = _floats(case["n"])
         with np.errstate(all="ignore"):
             mx = np.abs(nv).max(axis=1)
@@ -1339,20 +2061,24 @@ def sample_view(case):
         return dict(kind=k, steps=[sample_view(s) for s in case["steps"]])
     if k == "pair":
         return dict(kind=k, n=len(case["a"]), a0=[b2f(x) for x in case["a"][0]], b0=[b2f(x) for x in case["b"][0]], c0=[b2f(x) for x in case["c"][0]],
-                    g=[b2f(x) for x in case["g"]], tags=case["tags"][:6], input=case["input"], single=case.get("single"), explicit=case.get("explicit"), bogus=case.get("bogus"))
+                    g=[b2f(x) for x in case["g"]], tags=case["tags"][:6], input=case["input"], dtype=case.get("dtype", "float64"), single=case.get("single"),
+                    explicit=case.get("explicit"), bogus=case.get("bogus"))
     if k == "normals":
-        return dict(kind=k, n=len(case["ang"]), first=[b2f(x) for x in case["ang"][0]], oned=case.get("oned"))
+        return dict(kind=k, n=len(case["ang"]), first=[b2f(x) for x in case["ang"][0]], oned=case.get("oned"), form=case.get("form", "ndarray"))
     if k == "n2e":
-        return dict(kind=k, n=len(case["n"]), normals=[[b2f(x) for x in r] for r in case["n"][:4]], tags=case["tags"][:4], order=case.get("order", "zxz"), df=case.get("df"))
+        return dict(kind=k, n=len(case["n"]), normals=[[b2f(x) for x in r] for r in case["n"][:4]], tags=case["tags"][:4], order=case.get("order", "zxz"), df=case.get("df"),
+                    df_index=case.get("df_index"), dtype=case.get("dtype", "float64"))
     if k == "mismatch":
         return dict(kind=k, sizes=[len(case["a"]), len(case["b"])], input=case["input"])
     return dict(kind=k, n=len(case.get("p", [])))
 
 
 def classify(case, obs, finding):
-    """C06-K1: normals_to_euler_angles on a normal whose squared length x*x+y*y+z*z is not a normal binary64 number (|n| beyond ~1.3e154 or
-    below ~1.5e-154): np.linalg.norm overflows to inf (n/inf = 0 -> theta = psi = 0, the z-axis) or underflows to 0 (n/0 = inf/NaN).
-    Only findings the judge tagged for exactly that class carry the id."""
+    """C06-K1 (exact rule, H5): a row of normals_to_euler_angles that is WRONG (NaN angle, or its z-axis differs from the normalised normal by more than
+    1e-12 according to BOTH the Lean zxz model and scipy) AND whose squared length x*x+y*y+z*z, as numpy computes it, overflows to inf or is below the
+    smallest normal double (2.2e-308). Rows whose squared length is subnormal but whose result is still right are NOT findings; wrong rows with a normal
+    squared length are unlisted violations. Only findings the judge tagged for exactly that class carry the id; every other row of the same batch, the
+    column order, the return type and the model comparison are judged as usual."""
     return finding.get("known")
 
 
